@@ -1,9 +1,66 @@
 (* C06 — property theorems only (each closed by [exact]) + Print Assumptions. *)
 From Coq Require Import ZArith List.
-From Verif Require Import Common.Bytes Collect.TopN Collect.TopNProofs.
+From Verif Require Import Common.Bytes Collect.TopN Collect.TopNPaging Collect.TopNBefore.
 Import ListNotations.
 Local Open Scope Z_scope.
 
-Theorem C06_spec_total_length : forall ms, spec_total ms = Z.of_nat (length ms).
-Proof. exact spec_total_length. Qed.
-Print Assumptions C06_spec_total_length.
+(* the comparison (sort keys with descending flags, then hit number) is a strict total order on
+   matches with different hit numbers, and the specialised score-descending comparison is the same *)
+Theorem C06_cmp_total_order : forall so,
+  (forall a, compare so a a = 0) /\
+  (forall a b, compare so b a = - compare so a b) /\
+  (forall a b c, compare so a b < 0 -> compare so b c < 0 -> compare so a c < 0) /\
+  (forall a b, hit a <> hit b -> compare so a b < 0 \/ compare so b a < 0) /\
+  (forall a b, compare so a b = 0 -> hit a = hit b) /\
+  (forall a b, collector_cmp so a b = compare so a b).
+Proof. exact cmp_total_order. Qed.
+Print Assumptions C06_cmp_total_order.
+
+(* for every match stream, sort order, size and skip — either store, shortcut included — the
+   collector returns positions skip..skip+size of the fully sorted match list, Total = number of
+   matches, MaxScore = their maximum score *)
+Theorem C06_topn_is_slice : forall so size skip ms,
+  collect so size skip None ms =
+  Some {| results := spec_page so size skip ms; total := spec_total ms; max_score := spec_max_score ms |}.
+Proof. exact topn_is_slice. Qed.
+Print Assumptions C06_topn_is_slice.
+
+(* with a search-after sentinel: the first size of the sorted matches that sort strictly after it *)
+Theorem C06_topn_after_is_slice : forall so size a ms,
+  collect so size 0 (Some a) ms =
+  Some {| results := spec_after so size a ms; total := spec_total ms; max_score := spec_max_score ms |}.
+Proof. exact topn_after_is_slice. Qed.
+Print Assumptions C06_topn_after_is_slice.
+
+(* pages From = 0, size, 2*size, ... concatenate to the fully sorted list: no gap, no duplicate *)
+Theorem C06_pages_tile : forall so size n ms,
+  (length ms <= n * size)%nat ->
+  concat (map (fun k => page_results so size (k * size) ms) (seq 0 n)) = sorted_matches so ms.
+Proof. exact pages_tile. Qed.
+Print Assumptions C06_pages_tile.
+
+(* when the sort keys alone separate all matches, SearchAfter from hit i returns hits i+1..i+size *)
+Theorem C06_search_after_next_page : forall so size ms i x,
+  keys_distinct so ms -> nth_error (sorted_matches so ms) i = Some x ->
+  search so size (PAfter (after_of x)) ms =
+  Some {| results := firstn size (skipn (S i) (sorted_matches so ms));
+          total := spec_total ms; max_score := spec_max_score ms |}.
+Proof. exact search_after_next_page. Qed.
+Print Assumptions C06_search_after_next_page.
+
+(* ... and SearchBefore from hit i (reversed sort + search-after + re-sort) returns hits i-size..i-1
+   in the original order *)
+Theorem C06_search_before_prev_page : forall so size ms i x,
+  keys_distinct so ms -> nth_error (sorted_matches so ms) i = Some x ->
+  search so size (PBefore (after_of x)) ms =
+  Some {| results := skipn (i - size) (firstn i (sorted_matches so ms));
+          total := spec_total ms; max_score := spec_max_score ms |}.
+Proof. exact search_before_prev_page. Qed.
+Print Assumptions C06_search_before_prev_page.
+
+(* the sort values of a document are the same under the reversed sort order (Reverse flips both the
+   direction and the missing-value placement) *)
+Theorem C06_sort_values_reverse : forall so id terms,
+  sort_values (reverse_so so) id terms = sort_values so id terms.
+Proof. exact sort_values_reverse. Qed.
+Print Assumptions C06_sort_values_reverse.
